@@ -85,7 +85,8 @@ def as_frac(x):
 
 
 RESERVED_ERR = {"ValueError": "E_Value", "AssertionError": "E_Assert", "IndexError": "E_Index", "KeyError": "E_Key",
-                "TypeError": "E_Type", "RuntimeError": "E_Runtime", "AttributeError": "E_Attribute"}
+                "TypeError": "E_Type", "RuntimeError": "E_Runtime", "AttributeError": "E_Attribute",
+                "IncompatibleComponentError": "E_Incompatible"}
 
 
 def tuple_items(typ):
@@ -568,7 +569,10 @@ class Translator:
             if rest:
                 raise KernelError("statements after return")
             if stmt.value is None:
-                raise KernelError("bare return")
+                if not self.spec.get("unit"):
+                    raise KernelError("bare return")
+                self.ret_types.append("unit")
+                return "Ok tt" if self.mode == "res" else "tt"
             return self.ret(self.expr(stmt.value, env))
         if isinstance(stmt, ast.Raise):
             if self.mode != "res":
@@ -663,7 +667,7 @@ class Translator:
             both = set(self.assigned(stmt.body)) & set(self.assigned(stmt.orelse))
             names = [n for n in names if n in env or n in both]
             if not names:
-                has_return = any(isinstance(sub, (ast.Return, ast.Raise))
+                has_return = any(isinstance(sub, (ast.Return, ast.Raise) + ((ast.Assert,) if self.mode == "res" else ()))
                                  for sub in ast.walk(ast.Module(body=stmt.body + stmt.orelse, type_ignores=[])))
                 if not has_return:
                     raise KernelError("if without effect")
@@ -700,6 +704,24 @@ class Translator:
             b = self.block(stmt.orelse, env, pack_tail())
             pattern, env2 = self.unpack(names, shapes, env)
             return f"let {pattern} :=\n  if {test} then\n{a}\n  else\n{b} in\n" + self.block(rest, env2, tail)
+        if isinstance(stmt, ast.For) and not stmt.orelse and isinstance(stmt.target, ast.Name) and len(stmt.body) == 1 \
+                and isinstance(stmt.body[0], ast.If) and not stmt.body[0].orelse and len(stmt.body[0].body) == 2 \
+                and isinstance(stmt.body[0].body[1], ast.Break) and isinstance(stmt.body[0].body[0], ast.Assign) \
+                and len(stmt.body[0].body[0].targets) == 1 and isinstance(stmt.body[0].body[0].targets[0], ast.Name) \
+                and isinstance(stmt.body[0].body[0].value, ast.Constant) and stmt.body[0].body[0].value.value is True:
+            # `for x in seq: if test(x): flag = True; break`  ->  flag = flag or any(test(x) for x in seq)
+            flag = stmt.body[0].body[0].targets[0].id
+            if flag not in env or isinstance(env[flag], F) or env[flag].typ != "bool":
+                raise KernelError(f"flag {flag} of a search loop is not a boolean local")
+            seq = self.expr(stmt.iter, env)
+            if isinstance(seq, F) or not seq.typ.startswith("list "):
+                raise KernelError("for over a non-list")
+            inner = dict(env)
+            inner[stmt.target.id] = E(self.var(stmt.target.id), seq.typ[5:])
+            test = self.truth(stmt.body[0].test, inner)
+            value = E(f"{par(env[flag].text)} || existsb (fun {self.var(stmt.target.id)} => {test}) {par(seq.text)}", "bool")
+            text, env2 = self.bind(flag, value, env)
+            return text + self.block(rest, env2, tail)
         if isinstance(stmt, ast.For):
             if stmt.orelse or not isinstance(stmt.target, ast.Name):
                 raise KernelError("for with else or a pattern target")
@@ -866,6 +888,9 @@ def translate(repo, spec, types, cache):
         outputs = spec.get("outputs")
 
         def tail(e):
+            if not outputs and spec.get("unit"):
+                tr.ret_types.append("unit")
+                return "Ok tt" if tr.mode == "res" else "tt"
             if not outputs:
                 raise KernelError("the selection can end without return and no outputs are declared")
             for n in outputs:
